@@ -122,7 +122,7 @@ def describe(c, e, g):
 
 
 def run(ctx):
-    n = 120 if ctx.tier == 'quick' else 3000
+    n = 120 if ctx.tier == 'quick' else 10000
     cases = [gen_case(ctx) for _ in range(n)]
     args, mres, exp = model(cases)
     got = lib.run_impl_py('c13', cases, extra_env={'VERIF_SCRATCH': lib.BUILD}, timeout=3000)
